@@ -344,6 +344,10 @@ def _parser(col, rule="C07.R3"):
                 roles["count"] = True
             else:
                 roles.setdefault("unrecognised", []).append(S.show(a))
+    wrong = roles.get("previous") == "+" or roles.get("next") == "-"
+    if not wrong and ("previous" not in roles or "next" not in roles or roles.get("count") is not True):
+        raise AnalysisError("Table._split_name_count_offset: how name, count and offset are split off is not recognised "
+                            f"(recognised: {sorted(k for k in roles if k != 'unrecognised')}) -- cannot decide")
     col.add(rule, "Table._split_name_count_offset#previous-decreases", roles.get("previous") == "-", sx.loc(sx.fn),
             "`name<<k` (previous) subtracts k from the offset", str(roles))
     col.add(rule, "Table._split_name_count_offset#next-increases", roles.get("next") == "+", sx.loc(sx.fn),
